@@ -99,11 +99,13 @@ def check_framing(rec, sections, out, case):
 
 def check_unknown_reports(rec, sections, out, case):
     unknown = [n for n, _ in sections if n not in known_names()]
-    chart_logs = [m for (lg, lvl, m) in out.logs if lg == "chartparse.chart" and lvl in ("WARNING", "ERROR", "CRITICAL")]
+    # reports about unknown sections: WARNING+ records of the chartparse logger tree that name an unknown section (which logger
+    # carries them is the implementation's choice); these charts contain nothing else worth a warning
+    chart_logs = [m for (lg, lvl, m) in out.logs if (lg == "chartparse" or lg.startswith("chartparse.")) and lvl in ("WARNING", "ERROR", "CRITICAL")]
     rec.ev()
     if len(chart_logs) != len(unknown):
-        rec.violation("unknown-section-report", f"{len(unknown)} unknown sections {unknown} but {len(chart_logs)} records on logger "
-                      f"chartparse.chart: {chart_logs[:4]}", case, "unknown-section-report")
+        rec.violation("unknown-section-report", f"{len(unknown)} unknown sections {unknown} but {len(chart_logs)} warnings on the "
+                      f"chartparse loggers: {chart_logs[:4]}", case, "unknown-section-report")
         return False
     for n in unknown:
         if not any(n in m for m in chart_logs):
